@@ -1,38 +1,60 @@
 package main
 
 import (
+	"fmt"
+	"os"
 	"go/constant"
 	"go/token"
 
 	"golang.org/x/tools/go/ssa"
 )
 
-// A sliceLoop is a `for ... range <slice>` loop as lowered by go/ssa: the element address &X[i] with
-// i = phi + 1, the header block holding that phi and ending in the loop test.
+// A sliceLoop is a loop over the elements of a slice: `for ... range <slice>` as lowered by go/ssa (element address
+// &X[i] with i = phi + 1) or the hand-written form `for i := 0; i < len(X); i++ { ... X[i] ... }` (i = phi).
 type sliceLoop struct {
-	X      ssa.Value      // the ranged slice
-	Elem   *ssa.IndexAddr // &X[i] in the body
-	Header *ssa.BasicBlock
+	X      ssa.Value       // the ranged slice
+	Elem   *ssa.IndexAddr  // the first element access &X[i] of the body
+	Header *ssa.BasicBlock // block holding the loop counter phi and ending in the loop test
 	Test   ssa.Instruction // the If terminating the header
+	Body   ssa.Instruction // first instruction of the loop body
 }
 
-// sliceLoops finds the range-over-slice loops of f whose ranged value satisfies over (nil: all).
+// sliceLoops finds the loops over slices of f whose ranged value satisfies over (nil: all).
 func sliceLoops(f *ssa.Function, over VPred) []sliceLoop {
 	var out []sliceLoop
+	seen := map[string]bool{}
 	for _, in := range instrs(f) {
 		ia, ok := in.(*ssa.IndexAddr)
 		if !ok {
 			continue
 		}
-		bo, ok := ia.Index.(*ssa.BinOp)
-		if !ok || bo.Op != token.ADD {
-			continue
-		}
-		phi, ok := bo.X.(*ssa.Phi)
-		if !ok {
-			continue
-		}
-		if k, ok := constInt(bo.Y); !ok || k != 1 {
+		var phi *ssa.Phi
+		switch x := ia.Index.(type) {
+		case *ssa.BinOp:
+			if x.Op != token.ADD {
+				continue
+			}
+			p, ok := x.X.(*ssa.Phi)
+			if !ok {
+				continue
+			}
+			if k, ok := constInt(x.Y); !ok || k != 1 {
+				continue
+			}
+			phi = p
+		case *ssa.Phi:
+			// hand-written counter: some incoming edge is phi + 1 and the header tests the counter
+			inc := false
+			for _, e := range x.Edges {
+				if incrementOf(e, x) && e != ssa.Value(x) {
+					inc = true
+				}
+			}
+			if !inc {
+				continue
+			}
+			phi = x
+		default:
 			continue
 		}
 		hb := phi.Block()
@@ -46,7 +68,22 @@ func sliceLoops(f *ssa.Function, over VPred) []sliceLoop {
 		if over != nil && !over(ia.X) {
 			continue
 		}
-		out = append(out, sliceLoop{X: ia.X, Elem: ia, Header: hb, Test: iff})
+		// the body is the successor of the header from which the element access is reached
+		var body *ssa.BasicBlock
+		for _, sc := range hb.Succs {
+			if sc != hb && hb.Dominates(sc) && (sc == ia.Block() || sc.Dominates(ia.Block())) {
+				body = sc
+			}
+		}
+		if body == nil || len(body.Instrs) == 0 {
+			continue
+		}
+		key := itoa(hb.Index) + "/" + hb.Parent().String() + "/" + ia.X.Name()
+		if seen[key] {
+			continue
+		}
+		seen[key] = true
+		out = append(out, sliceLoop{X: ia.X, Elem: ia, Header: hb, Test: iff, Body: body.Instrs[0]})
 	}
 	return out
 }
@@ -55,7 +92,13 @@ func sliceLoops(f *ssa.Function, over VPred) []sliceLoop {
 // an instruction accepted by is (i.e. no iteration can skip it, whether by `continue`, by a guard, or otherwise).
 // Iterations that leave the loop (return/break) are not constrained.
 func (l sliceLoop) everyIteration(is func(ssa.Instruction) bool) bool {
-	return !pathExists(l.Elem.Parent(), l.Elem, l.Test, nil, is)
+	if is(l.Body) {
+		return true
+	}
+	if os.Getenv("RTDEBUG") != "" {
+		fmt.Fprintf(os.Stderr, "everyIteration: body=%v (%T) elem=%v test=%v hdr=%d\n", l.Body, l.Body, l.Elem, l.Test, l.Header.Index)
+	}
+	return !pathExists(l.Elem.Parent(), l.Body, l.Test, nil, is)
 }
 
 // A mapLoop is a `for k, v := range <map>` loop: Range/Next.
